@@ -1626,3 +1626,11 @@ CONTROLS['C16'] += [
 for _p in ('C02', 'C14', 'C15', 'C04', 'C05', 'C12'):
     CONTROLS[_p] += [B2('%s-benign-can-moved-to-wrappers' % _p.lower(),
                         [_DROP] + [_wrap(x) for x in _SCH])]
+
+CONTROLS['C13'] += [
+    M('c13-parser-returns-swapped', 'placement/util.py',
+      "            raise webob.exc.HTTPBadRequest(msg)\n    return required, forbidden\n",
+      "            raise webob.exc.HTTPBadRequest(msg)\n    return forbidden, required\n", 'R13.6'),
+    M('c13-plural-returns-swapped', 'placement/util.py',
+      "    return required_aggs, forbidden_aggs\n", "    return forbidden_aggs, required_aggs\n", 'R13.'),
+]
